@@ -12,7 +12,7 @@ def regenerate():
     """Every generated Lean fragment (lean/OVM/Gen) from /repo's current sources: the committed
     copies are only a convenience, the checks regenerate their own fragment again on every run."""
     import importlib
-    for name in ("t1_handles", "t2_hextables", "t3_tetlabels", "t4_ovmb_consts", "t5_footprint"):
+    for name in ("t1_handles", "t2_hextables", "t3_tetlabels", "t4_ovmb_consts", "t5_footprint", "t6_copyfields"):
         try:
             mod = importlib.import_module(name)
             (mod.t5 if name == "t5_footprint" else mod.generate)()   # t5's generate() only analyses, t5() writes the fragment
